@@ -389,7 +389,18 @@ def combinators_semantics(tier='quick', seed=0):
                 violations.append({'witness': f'this2var-sem:{e}', 'what': f'`{r}` with @{alias} bound to the message evaluates to {vr}, original `{e}` to {vo[1]!r}'[:400]})
                 break
     for e in exprs:
-        if not mentions(e, 'A') or binds(e, 'A') or mentions_this(e):
+        if not mentions(e, 'A') or binds(e, 'A'):
+            continue
+        if mentions_this(e):
+            # own fields and @A together: only the structural clause of the event rewrite applies
+            try:
+                ev = HplSimpleEvent.publish('t', HplPredicateExpression(e), alias='A')
+                cases += 1
+                if 'A' in ev.external_references() or mentions(ev.predicate.condition, 'A'):
+                    if len(violations) < 6:
+                        violations.append({'witness': f'event-alias:{e}', 'what': f'event `t as A {{{e}}}` still refers to its own alias: {ev.predicate}'})
+            except Exception:
+                pass
             continue
         try:
             r = replace_var_with_this(e, 'A')
